@@ -669,7 +669,7 @@ template<typename Ad> static void run_case(const Case& cs, FILE* out)
 		if (cs.tst != "*" && Ad::structure(*Tp) != cs.tst) fail("target-structure-is-" + Ad::structure(*Tp) + "-not-the-token");
 		const std::string& op = cs.op;
 		bool newobj = (op == "copyc" || op == "copyca" || op == "movec" || op == "moveca");
-		bool none = (op == "none");
+		bool none = (op == "none" || op == "copyfail");
 		uint64_t c0 = w.n_copy, m0 = w.n_move, a0 = w.n_alloc;
 		if (op == "copyc") Tp.reset(new C(S));
 		else if (op == "copyca") Tp.reset(new C(Ad::copy_with(S, cs.aid)));
@@ -681,6 +681,22 @@ template<typename Ad> static void run_case(const Case& cs, FILE* out)
 		else if (op == "selfcopya") { C& r = S; S = r; }
 		else if (op == "selfmovea") { C& r = S; S = std::move(r); }
 		else if (op == "selfswap") Ad::swap(S, S);
+		else if (op == "copyfail")
+		{
+			// copy construction with the k-th allocation refused, for every k until the copy succeeds: the source stays intact and
+			// nothing is destroyed twice (the copying constructors delegate: catch block AND destructor run; 806b9fe, 84c9298, 91ea186)
+			for (int kf = 0; kf < 40; ++kf)
+			{
+				w.arm(kf, -1, -1);
+				bool done = false;
+				try { C X(S); done = true; if (Ad::contents(X) != s0) fail("copy-after-refusals-differs"); }
+				catch (const std::bad_alloc&) { }
+				w.disarm();
+				if (Ad::contents(S) != s0) { fail("failed-copy-damaged-source"); break; }
+				if (!w.errors.empty()) break;
+				if (done) break;
+			}
+		}
 		else if (op == "merge") { if constexpr (HasMerge<Ad>::value) Ad::merge(*Tp, S); }     // TreeSet::MergeTo, target empty, equal managers (c7fda03)
 		uint64_t dc = w.n_copy - c0, dm = w.n_move - m0;
 		(void)a0;
@@ -689,7 +705,7 @@ template<typename Ad> static void run_case(const Case& cs, FILE* out)
 		int tId = (self || none) ? -2 : Ad::id(T), sId = Ad::id(S);
 		Vals tc = (self || none) ? Vals() : Ad::contents(T), sc = Ad::contents(S);
 		// ---- the property's predicate on the main operation (independent of the Coq model)
-		bool iscopy = op.compare(0, 4, "copy") == 0, ismove = op.compare(0, 4, "move") == 0;
+		bool iscopy = op.compare(0, 4, "copy") == 0 && op != "copyfail", ismove = op.compare(0, 4, "move") == 0;
 		if (Ad::count(S) != sc.size() || (!self && !none && Ad::count(T) != tc.size())) fail("count-differs-from-iteration");
 		if constexpr (Ad::crew)
 		{
@@ -724,7 +740,7 @@ template<typename Ad> static void run_case(const Case& cs, FILE* out)
 		// independence of a copy: mutate / destroy one side, re-check the other
 		std::string tie1;
 		{
-			char buf[64]; snprintf(buf, sizeof buf, " mv=%d cp=%d", dm > 0 && !iscopy, dc > 0);   // element moves inside a fresh copy are its own business
+			char buf[64]; snprintf(buf, sizeof buf, " mv=%d cp=%d", dm > 0 && !iscopy && op != "copyfail", dc > 0 && op != "copyfail");   // element moves inside a fresh copy are its own business
 			bool ew = (op == "movea" || op == "moveca") && Ad::crew && sId != -1 && !HasInline<Ad>::value;      // element-wise path: rebuilt by insertion (shape = the token est)
 			bool mergex = op == "merge" && !s0.empty() && !(t0.empty() && cs.sid == cs.tid);           // merge other than the swap path: joined / rebuilt tree
 			if (mergex) ew = true;
